@@ -94,7 +94,43 @@ def replay_gen_response_spectrum(info, ce):
     return dict(status='not-reproduced', detail='object-level spectra equal the spectra of the suitably interpolated record on %d battery histories' % tried)
 
 
+def replay_energy(info, ce):
+    """energy spectra against their defining sums over the response series of THIS record, step, periods and damping (the series
+    come from eqsig.sdof.response_series, which C01 pins to the exact solution)"""
+    import eqsig
+    from eqsig import sdof
+    fn = info.get('fn')
+    rng = np.random.RandomState(21)
+    tried = 0
+    for n in (40, 200):
+        for dt in (0.01, 0.05):
+            acc = rng.randn(n)
+            for periods in ([0.2, 0.5, 1.0], (0.3, 2.0), np.array([0.1, 0.7])):
+                for xi in (0, 0.0, 0.05, 0.3):
+                    a = eqsig.AccSignal(acc.copy(), dt)
+                    with np.errstate(all='ignore'):
+                        if fn == 'uke':
+                            got = np.asarray(sdof.calc_resp_uke_spectrum(a, periods=periods, xi=xi))
+                        else:
+                            got = np.asarray(sdof.calc_input_energy_spectrum(a, periods=periods, xi=xi, series=(fn == 'input-series')))
+                        u, v, aa = sdof.response_series(acc.copy(), dt, np.array(periods, dtype=float), xi)
+                    if fn == 'uke':
+                        want = np.sum(np.abs(np.diff(0.5 * v ** 2, axis=1)), axis=1)
+                    elif fn == 'input':
+                        want = np.sum(acc[None, :] * v * dt, axis=1)
+                    else:
+                        want = np.cumsum(acc[None, :] * v * dt, axis=1)
+                    tried += 1
+                    if got.shape != want.shape or np.max(np.abs(got - want)) > 1e-9 * max(1e-30, float(np.max(np.abs(want)))):
+                        return dict(status='confirmed', observed={'got': np.ravel(got)[:4].tolist(), 'defining_sum': np.ravel(want)[:4].tolist()},
+                                    detail='%s spectrum with xi=%r is not its defining sum over the response series of that damping' % (fn, xi),
+                                    input={'acc_seed': 21, 'n': n, 'dt': dt, 'periods': repr(periods), 'xi': xi})
+    return dict(status='not-reproduced', detail='energy spectra equal their defining sums on %d battery calls' % tried)
+
+
 def replay(info, ce):
+    if info.get('entry') == 'energy':
+        return replay_energy(info, ce)
     from eqsig import sdof
     if info.get('entry') == 'gen_response_spectrum':
         return replay_gen_response_spectrum(info, ce)
